@@ -438,6 +438,10 @@ def run(chk):
         return True, "", ["%d direct enter/exit sites, all in Frame::enter / EnterGuard::drop / Ctxt impls" % n]
     chk.ob("C04.R3:who-may-enter-exit", "span frames are entered/exited only through the RAII guard (ids revert on every exit path)", who_may)
 
+    common.hex_id_fromvalue_rule(chk, P, "C04")
+    # macro/runtime boundary: what the expansion passes at each named hook parameter (read off emit_macros' quote! templates)
+    from . import quotes
+    quotes.boundary_rule(chk, P, "C04", {"__private_begin_span"}, 3)
     common.arg_agreement_rule(chk, P, "C04", [("emit", "src/span.rs"), ("emit", "src/macro_hooks.rs"),
                                                ("emit_macros", "src/span.rs"), ("emit", "src/frame.rs")], 20)
     if True:
